@@ -12,11 +12,18 @@ if ! git -C /repo apply "$patch"; then echo "trymutant: patch does not apply"; e
 ids="$*"
 restore() {
   git -C /repo checkout -- . ; git -C /repo clean -fdq
-  # regenerate facts / evidence for the unchanged tree
-  for id in $ids; do VERIF_HOLDING_REPO_LOCK=1 timeout 1500 ./check "$id" quick >/dev/null 2>&1 || echo "trymutant: WARNING $id not green after undo"; done
+  # put the regenerated facts and the evidence of the unchanged tree back (cheap: no full check run while the lock is held)
+  export GOFLAGS=-mod=mod GOPROXY=off GOSUMDB=off GOTOOLCHAIN=local CGO_ENABLED=0
+  for id in $ids; do
+    [ -f tmp/pre_mut_evidence_$id.json ] && cp tmp/pre_mut_evidence_$id.json evidence/$id.json
+    for g in $(python3 -c "import json;c=json.load(open('props.json'))['$id'];print(' '.join(c.get('gen',[])))"); do
+      (cd harness && go build -o bin/ ./cmd/$g && ./bin/$g factgen -repo /repo -out ../lean/GIV/Gen >/dev/null) || echo "trymutant: WARNING factgen $g failed after undo"
+    done
+  done
 }
 trap restore EXIT
 for id in "$@"; do
+  cp evidence/$id.json tmp/pre_mut_evidence_$id.json 2>/dev/null
   echo "== $id with $(basename "$patch")"
   VERIF_HOLDING_REPO_LOCK=1 timeout 1500 ./check "$id" "${TIER:-quick}" 2>&1 | tail -4
   echo "exit=${PIPESTATUS[0]}"
